@@ -22,7 +22,12 @@ def run(ctx):
     RK.text_methods_use_chars(ctx, "R03.g")
     from . import C10 as RC10
     from . import r_state as RS
-    RC10.hidden_state_inventory(ctx, "R10.e", RS.reset_before_read(ctx, None))
+    # scratch state (candidate counters, matcher buffers) must be fresh for every search: a stale counter makes records
+    # unreachable by any prefix after an earlier, larger search
+    RC10.hidden_state_inventory(ctx, "R10.e", RS.reset_before_read(ctx, "R03.h", floor=8))
+    # the Jaccard pre-filter compares the two words as sets (duplicates removed on both sides)
+    from . import C17 as RC17
+    RC17.chain_rule(ctx, "R03.i")
     from . import r_rank as RR
     RR.search_chain_shape(ctx, "R06.a", parts=("complete", "score", "filter"))
     RC20.buffer_rules(ctx, None, None, "R20.f")
